@@ -164,12 +164,12 @@ def rule_token_clone(ctx: RuleContext, p: Program, rid: str) -> None:
 
 def run(ctx: RuleContext, p: Program) -> None:
     tcs = build_tree_classes(p)
-    rule_copy_store(ctx, p, 'COPY-STORE')
-    gen.rule_cover_clone(ctx, p, tcs, 'COVER-CLONE')
+    ctx.try_rule(rule_copy_store, p, 'COPY-STORE')
+    ctx.try_rule(gen.rule_cover_clone, p, tcs, 'COVER-CLONE')
     ctx.require_min('COVER-CLONE', 34)
-    handmodels.rule_hand_clone(ctx, p, 'COVER-CLONE')
-    rule_token_clone(ctx, p, 'TOKEN-CLONE')
-    seps.rule_sep_prov(ctx, p, 'SEP-PROV')
+    ctx.try_rule(handmodels.rule_hand_clone, p, 'COVER-CLONE')
+    ctx.try_rule(rule_token_clone, p, 'TOKEN-CLONE')
+    ctx.try_rule(seps.rule_sep_prov, p, 'SEP-PROV')
     ctx.not_decided += ['that the copy compares equal (structural part under C20)', 'exact spans at reordered placeholders',
                         'independence under later edits as a runtime fact']
     ctx.assumptions += ['copy.deepcopy(token) dispatches to RawTokenModel.__deepcopy__', 'TokenStore.from_tokens builds a new store']
